@@ -7,6 +7,7 @@ import (
 	"context"
 	"strconv"
 	"strings"
+	"sync"
 
 	"github.com/samsarahq/thunder/batch"
 	"github.com/samsarahq/thunder/internal/zzverif/nondet"
@@ -223,7 +224,27 @@ func c12CheckWrites(l *c12Limits) {
 					nondet.Assert(nondet.DeepEq(st.args[k], l.team), "touch-complies")
 				}
 			}
-			nondet.Assert(found, "touch-complies")
+			if !found {
+				// the limit column is part of the primary key: then it must be pinned by the WHERE
+				e, ok := zParseWhere(zWhereOf(st.clause))
+				nondet.Assert(ok && e != nil, "touch-complies")
+				if e != nil {
+					r := &zUser{Id: nondet.Int64("upd.id"), Name: nondet.StringFrom("upd.name", "ann", "bob", "cy"), Team: nondet.Int64("upd.team")}
+					if zTruth(e.eval(r, st.args[len(sets):])) {
+						nondet.Assert(r.Team == l.team, "touch-complies")
+					}
+				}
+			}
+			if l.hasName {
+				nameSet := false
+				for k, s := range sets {
+					if strings.HasPrefix(s, "name = ") {
+						nameSet = true
+						nondet.Assert(nondet.DeepEq(st.args[k], l.name), "touch-complies")
+					}
+				}
+				nondet.Assert(nameSet, "touch-complies")
+			}
 		case strings.HasPrefix(st.clause, "DELETE "):
 			e, ok := zParseWhere(zWhereOf(st.clause))
 			nondet.Assert(ok && e != nil, "touch-complies")
@@ -231,6 +252,9 @@ func c12CheckWrites(l *c12Limits) {
 				r := &zUser{Id: nondet.Int64("del.id"), Name: nondet.StringFrom("del.name", "ann", "bob", "cy"), Team: nondet.Int64("del.team")}
 				if zTruth(e.eval(r, st.args)) {
 					nondet.Assert(r.Team == l.team, "touch-complies")
+					if l.hasName {
+						nondet.Assert(r.Name == l.name, "touch-complies")
+					}
 				}
 			}
 		default:
@@ -272,6 +296,53 @@ func c12Writes(dynamic bool) {
 		for _, st := range zDrv.stmts {
 			nondet.Assert(st.kind == "begin", "no-touch-after-reject")
 		}
+		nondet.Cover("rejected")
+	} else {
+		nondet.Cover("accepted")
+	}
+	c12CheckWrites(l)
+}
+
+// c12Member: a table whose primary key contains one limit column (team) but
+// not the other (name): DELETE and UPDATE statements carry only some of the
+// limit columns.
+type c12Member struct {
+	Team int64 `sql:",primary"`
+	Id   int64 `sql:",primary"`
+	Name string
+}
+
+// VerifC12WritesComposite: DeleteRow / UpdateRow / InsertRow on the composite-key
+// table under a one- or two-column limit: a statement that lacks any limit
+// column is refused, whatever other limit columns it does carry.
+func VerifC12WritesComposite() {
+	l := c12Limit(false)
+	zReset()
+	schema := zSchema()
+	schema.MustRegisterType("members", UniqueId, c12Member{})
+	db, err := zNewDB(schema).WithShardLimit(func() Filter {
+		f := Filter{"team": l.team}
+		if l.hasName {
+			f["name"] = l.name
+		}
+		return f
+	}())
+	nondet.Assert(err == nil, "limit-installed")
+	ctx := context.Background()
+	row := &c12Member{Team: nondet.Int64("row.team"), Id: nondet.Int64("row.id"), Name: nondet.StringFrom("row.name", "ann", "bob")}
+	op := nondet.Choice("op", 3)
+	switch op {
+	case 0:
+		err = db.DeleteRow(ctx, row)
+	case 1:
+		err = db.UpdateRow(ctx, row)
+	case 2:
+		_, err = db.InsertRow(ctx, row)
+	}
+	allowed := l.allowed(true, row.Team, op != 0, row.Name)
+	nondet.Assert((err == nil) == allowed, "noncompliant-errors")
+	if !allowed {
+		nondet.Assert(len(zDrv.stmts) == 0, "no-touch-after-reject")
 		nondet.Cover("rejected")
 	} else {
 		nondet.Cover("accepted")
@@ -339,6 +410,49 @@ func VerifC12Batched() {
 		nondet.Cover("rejected")
 	} else {
 		nondet.Assert(len(zDrv.stmts) == 1, "batched-select-issued")
+		nondet.Cover("accepted")
+	}
+	c12CheckReads(l)
+}
+
+// VerifC12Batched2: two concurrent reads on one batching context: whether the
+// batch function combines them or not, each call errs iff its own filter does
+// not comply, a rejected call contributes nothing, and every SELECT that reaches
+// the driver (the combined one included) only matches rows of the shard.
+func VerifC12Batched2() {
+	l := c12Limit(false)
+	zReset()
+	db := c12DB(l)
+	ctx := batch.WithBatching(context.Background())
+	var wg sync.WaitGroup
+	var errs [2]error
+	var allowed [2]bool
+	nAllowed := 0
+	for i := 0; i < 2; i++ {
+		f, hasTeam, team, hasName, name := c12Filter("f" + strconv.Itoa(i))
+		allowed[i] = l.allowed(hasTeam, team, hasName, name)
+		if allowed[i] {
+			nAllowed++
+		}
+		wg.Add(1)
+		go func(i int, f Filter) {
+			defer wg.Done()
+			var out []*zUser
+			errs[i] = db.Query(ctx, &out, f, nil)
+		}(i, f)
+	}
+	wg.Wait()
+	for i := 0; i < 2; i++ {
+		nondet.Assert((errs[i] == nil) == allowed[i], "noncompliant-errors")
+	}
+	if nAllowed == 0 {
+		nondet.Assert(len(zDrv.stmts) == 0, "no-touch-after-reject")
+		nondet.Cover("rejected")
+	} else {
+		nondet.Assert(len(zDrv.stmts) >= 1 && len(zDrv.stmts) <= nAllowed, "batched-select-issued")
+		if nAllowed == 2 && len(zDrv.stmts) == 1 {
+			nondet.Cover("combined")
+		}
 		nondet.Cover("accepted")
 	}
 	c12CheckReads(l)
